@@ -16,14 +16,22 @@ Definition jv_xout {A} (f : A -> jv) (x : xout A) : jv :=
   | XAssert => JC "Exc" [JC "AssertionError" []]
   end.
 
+(* a table the kernel can print: names non-empty, distinct, without NUL / line breaks; digit strings.
+   The demanded answer (spec_net) is defined for all of these; the theorems cover [wf_nics] *)
+Definition printable_nics (l : list knic) : bool :=
+  forallb (fun i => match n_name i with [] => false | _ => true end
+                    && forallb (fun b => (1 <=? b) && (b <=? 255) && negb (b =? 10) && negb (b =? 13)) (n_name i)
+                    && forallb is_dec (nic_counters i)) l
+  && nodupb (map n_name l).
 (* kernel-shaped /proc/net/dev *)
 Definition run_net (sp : bool) (l : list knic) : jv :=
   let c := k_netdev sp l in
   JL [ JB c;
        jv_xout jv_front (net_io_counters true c);
        jv_xout jv_front (net_io_counters false c);
-       jv_spec (wf_nics l) (spec_net true l);
-       jv_spec (wf_nics l) (spec_net false l);
+       jv_spec (printable_nics l) (spec_net true l);
+       jv_spec (printable_nics l) (spec_net false l);
+       jbool (wf_nics l);
        jbool (forallb (fun i => dev_valid_name (n_name i)) l) ].
 Definition run_net_raw (c : bytes) : jv :=
   JL [ jv_xout jv_front (net_io_counters true c); jv_xout jv_front (net_io_counters false c) ].
